@@ -379,6 +379,9 @@ func init() {
 			)
 		}
 		r.ExploreSpecs(specs)
+		// containers produced by the bulk constructors: sizes cached in memory by the builder must be the ones a reload
+		// computes from the registers (a container must not behave differently before and after it is reloaded)
+		r.RunTaskGroup("bulk-built arrays and maps (cached sizes vs reload)", "c17", bulkBuiltArgs())
 	}})
 }
 
